@@ -5,6 +5,7 @@ import (
 	"fmt"
 	"sort"
 	"strings"
+	"time"
 
 	"github.com/jsightapi/jsight-schema-core/notations/jschema"
 	"github.com/jsightapi/jsight-schema-core/notations/jschema/ischema"
@@ -360,7 +361,7 @@ func runC07(c *core.Ctx) error {
 		{"AllOf_2optdef.cfg", mko(2, `{"k1", "k2"}`, 1, `{"absent"}`, "FALSE", "FALSE", "TRUE")}}
 	if c.Thorough() {
 		cfgs = append(cfgs, cf{"AllOf_2ap.cfg", mk(2, `{"k1", "k2"}`, 2, `{"absent", "false", "string", "any", "true"}`, "FALSE")},
-			cf{"AllOf_3.cfg", mk(3, `{"k1", "k2", "k3"}`, 1, `{"absent", "false"}`, "FALSE")},
+			cf{"AllOf_3.cfg", mk(3, `{"k1", "k2"}`, 1, `{"absent", "false"}`, "FALSE")},
 			cf{"AllOf_2nest2.cfg", mk(2, `{"k1", "k2"}`, 2, `{"absent", "false"}`, "TRUE")})
 	}
 	if _, err := loadCallOrders(); err != nil {
@@ -369,7 +370,7 @@ func runC07(c *core.Ctx) error {
 	for _, cfg := range cfgs {
 		var cases []aoCase
 		n := 0
-		res, err := tlc.Run(tlc.Opts{Module: "AllOf", Cfg: cfg.name, Workers: 16, Timeout: 0, HeapGB: 16, Files: map[string][]byte{cfg.name: []byte(cfg.body)}, OnLine: func(l string) {
+		res, err := tlc.Run(tlc.Opts{Module: "AllOf", Cfg: cfg.name, Workers: 16, Timeout: 40 * time.Minute, HeapGB: 16, Files: map[string][]byte{cfg.name: []byte(cfg.body)}, OnLine: func(l string) {
 			var cs aoCase
 			if err := json.Unmarshal([]byte(l), &cs); err != nil {
 				c.InfraError("bad case: %v", err)
